@@ -79,7 +79,33 @@ Definition upd_action (c : option cid) (k : str) (e : entry) : list raction :=
     | None => []
     end
   else [AUpd k e].
-Definition del_action (k : str) : list raction := if starts_with s_SYS_prefix k then [] else [ADel k].
+(* the client a key $SYS/clients/<id>/.. belongs to (the inverse of client_str on the ids the model uses) *)
+Definition hexval (d : N) : option N :=
+  if (N.leb 48 d && N.leb d 57)%bool then Some (d - 48)
+  else if (N.leb 97 d && N.leb d 102)%bool then Some (d - 87) else None.
+Definition client_of_str (sg : str) : option cid :=
+  if str_eqb sg uuid_nil then Some 0
+  else if starts_with uuid_prefix sg then
+    match skipn (length uuid_prefix) sg with
+    | [h; l] => match hexval h, hexval l with Some a, Some b => Some (16 * a + b) | _, _ => None end
+    | _ => None
+    end
+  else None.
+
+(* PersistentStorageImpl::delete_value (after the repair of F28): a registration that is withdrawn by deleting its
+   key leaves the registration table of its client too; other $SYS keys are not persisted *)
+Definition reg_del (k : str) : list raction :=
+  match split slash k with
+  | [_; s1; cs; s3] =>
+      if str_eqb s1 s_clients then
+        match client_of_str cs with
+        | Some c => if str_eqb s3 s_graveGoods then [AGG c None] else if str_eqb s3 s_lastWill then [ALW c None] else []
+        | None => []
+        end
+      else []
+  | _ => []
+  end.
+Definition del_action (k : str) : list raction := if starts_with s_SYS_prefix k then reg_del k else [ADel k].
 
 Definition entry_eqb' (a b : option entry) : bool :=
   match a, b with
